@@ -382,6 +382,25 @@ def rng(prog, rep):
     if not problems:
         rep.ok("C16.rng", f"{q}:reachable", fn.where(), f"{n_sites[0]} RNG-consuming call sites reachable from the branch, all seeded")
     rep.extra["C16.rng.sites"] = n_sites[0]
+    # methods of the model that take no seed of their own (the sample behind empirical_cdf): what they draw comes from the model's seed
+    n_own = 0
+    for name_, m in sorted(tm.methods.items()):
+        if "random_state" in m.params or name_ == "__init__":
+            continue
+        for n in ast.walk(m.node):
+            if isinstance(n, ast.Call) and isinstance(n.func, ast.Attribute) and isinstance(n.func.value, ast.Name) and n.func.value.id == "self" \
+                    and n.func.attr in ("draw_sample", "conditional_sample", "marginal_icdf", "conditional_icdf", "conditional_cdf"):
+                tgt = prog.lookup_method(tm, n.func.attr)
+                if tgt is None or "random_state" not in tgt.params:
+                    continue
+                n_own += 1
+                kw = {k.arg: k.value for k in n.keywords if k.arg}
+                v = kw.get("random_state")
+                okv = isinstance(v, ast.Attribute) and v.attr == "random_state" and isinstance(v.value, ast.Name) and v.value.id == "self"
+                rep.check(okv, "C16.rng", f"{m.qualname}:{n.func.attr}", f"{m.file}:{n.lineno}", "random_state=self.random_state",
+                          f"{m.name} has no seed of its own and calls self.{n.func.attr}(...) without the model's random_state: two equal TransformedModels seeded with 42 "
+                          "answer empirical_cdf differently ([0.357185 ...] against [0.357756 ...]), and the same model answers differently after its memo was dropped")
+    rep.extra["C16.rng.own_sites"] = n_own
     # conditional_sample itself: C07.rng decides that its generator is default_rng(random_state)
     cs = prog.func(f"{MM}.conditional_sample")
     bc = builder(prog, cs, inline=False)
